@@ -597,6 +597,11 @@ def run(ck):
     ck.props()
     tie_a, tie_reason = translator_tie(ck)
     ck.cov["translator_tie"] = "intact" if tie_a else "unavailable: " + tie_reason
+    # tie (A) part 2: the partitioner classes (HashedPartitioner.partition/_hash, RoundRobinPartitioner) - independent of part 1;
+    # when it is not intact the class streams below (tie B) carry those clauses alone, as they did before
+    import part_tie
+    st2, why2 = part_tie.partitioner_tie(ck)
+    ck.cov["translator_tie_classes"] = "intact" if st2 == "intact" else "%s: %s" % (st2, why2)
     rnd = random.Random(ck.seed)
     scale = 1 if ck.tier == "quick" else 20
     kscale = scale * (1 if tie_a else 20)        # tie (A) down: tie (B) must carry the hash alone
@@ -673,7 +678,8 @@ def run(ck):
     # --- 2. hashed partitioner on bytes / bytearray / text; the UTF-8 encoder itself
     cases, impl, meta = [], [], []
     fixed = [([], [0, 1, 2], "bytes"), ([], [0, 1, 2, 3, 4], "bytearray"), ([], [0, 1], "text"), ([0], [0, 1, 2], "bytes")]
-    for j in range(500 * scale + len(fixed)):
+    cscale = scale if st2 == "intact" else 4 * scale      # classes tie down: tie (B) carries the class clauses alone
+    for j in range(500 * cscale + len(fixed)):
         if j < len(fixed):
             k, parts, form = fixed[j]               # the EMPTY key (Java hashes it like any other) in every form
             cases.append([3 if form == "text" else 2] + lp(k) + lp(parts))
@@ -728,7 +734,7 @@ def run(ck):
 
     # --- 3. round robin histories (exact up to the first non-ascending list, then membership only)
     cases, impl, meta = [], [], []
-    for _ in range(250 * scale):
+    for _ in range(250 * cscale):
         random_start, init, calls, mode = gen_rr(rnd)
         draws = Draws(rnd)
         outs, start0, starts, note = impl_rr(random_start, init, calls, draws, mode)
@@ -863,6 +869,7 @@ def run(ck):
                       "history has >=3 selections; distinct = distinct canonical case lines.")
     ck.assumptions += [
         "tie (A): pure_murmur2 is translated from the source by harness/py2coq.py on every run and proved equal to the hand model by the generic tactic Proofs/MurmurGenTac.v (trusted: the translator's reading of Python ints as Z, //,% as Z.div/Z.modulo with non-zero constant divisors, shifts by non-negative constants, indexing as py_index; validated against CPython by harness/py2coq_selftest.py); this run: " + ck.cov["translator_tie"],
+        "tie (A) part 2: HashedPartitioner.partition/_hash and RoundRobinPartitioner.__init__/_set_partitions/partition are translated from the source by harness/py2part.py on every run and proved equal to hashed_partition[_text] / rr_set / rr_partition (Props/C18genp.v; randint is an oracle input, the Producer's use of the classes is NOT translated); this run: " + ck.cov.get("translator_tie_classes", "?"),
         "tie (B): hand-written Gallina models Model/Murmur.v, Model/Partitioner.v stand for afkak/partitioner.py:29-99,131-219 (HashedPartitioner/RoundRobinPartitioner tie checked by this run's correspondence only)",
         "murmur2_java / java_partition are transcriptions of org.apache.kafka.common.utils.Utils.murmur2 / toPositive(..) % n with two's-complement int32 semantics, compared on every run with 3690 values produced once by a real JVM (harness/corpus/C18)",
         "CPython's UTF-8 encoder modelled by Model.Partitioner.utf8, proved against the RFC 3629 decoder utf8_decode, tied to CPython by correspondence",
